@@ -349,6 +349,28 @@ def r3(R):
     u = pyfacts.closure_src(m, dt)   # the coercion may live in a helper of the same module
     R.check(re.search(r"\bfloat\(", u) and re.search(r"\bint\(", u) and (".lstrip().rstrip()" in u or ".strip()" in u), "C18.R3", PAR, dt.lineno, "parameters.dumbtypecheck",
             "coercion tries float, then int, else stripped string", "type coercion order changed")
+    # int vs float: a value that parses with int() comes back as that int.  The test that prefers the int must hold for every
+    # integer string - comparing int(value) with float(value) exactly does not (Python compares int and float exactly; beyond
+    # 2**53 the float is rounded, the test fails and the rounded float is stored)
+    scope = [dt] + pyfacts.local_callees(m, dt, 2)
+    ints = set()
+    floats = set()
+    for f_ in scope:
+        for a_ in ast.walk(f_):
+            if isinstance(a_, ast.Assign) and len(a_.targets) == 1 and isinstance(a_.targets[0], ast.Name) and isinstance(a_.value, ast.Call) and len(a_.value.args) == 1:
+                if src(a_.value.func) == "int":
+                    ints.add(a_.targets[0].id)
+                if src(a_.value.func) == "float":
+                    floats.add(a_.targets[0].id)
+    for f_ in scope:
+        for c_ in ast.walk(f_):
+            if isinstance(c_, ast.Compare) and len(c_.ops) == 1 and isinstance(c_.ops[0], (ast.Eq, ast.NotEq)):
+                names = {src(c_.left), src(c_.comparators[0])}
+                if names & ints and names & floats:
+                    R.check(False, "C18.R3", PAR, c_.lineno, "parameters.dumbtypecheck", "int / float choice by %s" % src(c_),
+                            "int(value) is compared exactly with float(value): for integers that are not representable as a double "
+                            "(|v| > 2**53) the comparison is false and the value is stored as a rounded float - neither its type nor its "
+                            "value survives the round trip")
     # columnfile.readfile also coerces header parameters
     cm = pyfacts.module(R, CF)
     rf = cm.nfunc("columnfile.readfile")
